@@ -29,9 +29,13 @@ def contract_with(b, parts, name='C', kind='Contract', bases=()):
 
 
 # ---- the position catalogue: name -> builder(b, E) -> list of SourceUnitParts (without pragma) -------------------------
+STMT_POSITIONS = {}
+
+
 def _in_fn(stmts_of):
     def place(b, e):
         return [contract_with(b, [fn_def(b, stmts_of(b, e))])]
+    place.stmts_of = stmts_of
     return place
 
 
@@ -98,6 +102,9 @@ POSITIONS = {
     'second_function': lambda b, e: [contract_with(b, [fn_def(b, [b.expr_stmt(b.var('nothing'))], name='g0'), fn_def(b, [b.expr_stmt(e)])])],
     'after_assembly': _in_fn(lambda b, e: [b.assembly(), b.expr_stmt(e)]),
 }
+for _k, _v in POSITIONS.items():
+    if hasattr(_v, 'stmts_of'):
+        STMT_POSITIONS[_k] = _v.stmts_of
 # positions whose scaffolding changes what a detector must say about the slot expression are handled by the oracle's
 # context (unchecked_block, for_condition); all others are neutral.
 QUICK_POSITIONS = ['statement', 'initialiser', 'if_condition', 'for_condition', 'call_argument', 'power_exponent',
@@ -316,8 +323,8 @@ def loc_vars_in(term, names):
 
 def concretize_dec(v, m):
     """evaluate DecStr leaves (symbolic number literals) under a model"""
-    if isinstance(v, sol.DecStr):
-        return Str(str(m.eval(v.n, model_completion=True).as_long()))
+    if isinstance(v, Str) and hasattr(v, 'render'):
+        return Str(v.render(m))
     if isinstance(v, Adt):
         return Adt(v.ty, v.variant, [concretize_dec(f, m) for f in v.fields])
     if isinstance(v, BoxV):
@@ -339,7 +346,7 @@ def eval_cond(c, m):
     return z3.is_true(m.eval(c, model_completion=True))
 
 
-def native_verdict(chk, detector, su_conc, label, oracle_fn=None):
+def native_verdict(chk, detector, su_conc, label, oracle_fn=None, meta=None):
     """run the real detector on the printed file and compare with the (now concrete) oracle.
     -> (text, native result fields, list of problems)"""
     text, starts = sol.print_source(su_conc)
@@ -353,7 +360,7 @@ def native_verdict(chk, detector, su_conc, label, oracle_fn=None):
         problems.append('panic[%s]: %s' % (panic_role(msg), msg))
         return text, det, problems
     got = sorted({int(x.split(':')[0]) for x in det[1].split(',') if x})
-    cls = oracle.classify_file(detector, su_conc, oracle_fn)
+    cls = oracle.classify_file(detector, su_conc, oracle_fn, meta)
     by_start = {}
     for node, lid, flag, never in cls:
         if lid is None or lid not in starts:
@@ -372,13 +379,23 @@ def native_verdict(chk, detector, su_conc, label, oracle_fn=None):
     return text, det, problems
 
 
-def run_case(chk, engine, detector, su, label, loc_names, oracle_fn=None, confirm=True, role=None):
+def conc_meta(meta, m):
+    if not meta:
+        return meta
+    out = dict(meta)
+    v = meta.get('version')
+    if v is not None:
+        out['version'] = tuple(x if isinstance(x, int) else m.eval(x, model_completion=True).as_long() for x in v)
+    return out
+
+
+def run_case(chk, engine, detector, su, label, loc_names, oracle_fn=None, confirm=True, role=None, meta=None, base=()):
     """executes the detector's MIR on `su`, decides the oracle on every path, validates each path natively.
     `role`: prefix of the known-finding key (defaults to the detector name)."""
     res = CaseResult()
     fn = engine.func(oracle.MIR_NAME[detector])
     try:
-        paths = engine.explore(lambda en: en.call_mir(fn, [su]), max_paths=5000)
+        paths = engine.explore(lambda en: en.call_mir(fn, [su]), max_paths=5000, base_constraints=list(base))
     except Unsupported as u:
         chk.undecide('%s [%s]: %s' % (detector, label, u))
         return res
@@ -387,15 +404,16 @@ def run_case(chk, engine, detector, su, label, loc_names, oracle_fn=None, confir
     for r in paths:
         if r.outcome == 'unsupported':
             chk.undecide('%s [%s]: %s' % (detector, label, r.value))
-            fallback_native(chk, detector, su, r, label, role, oracle_fn)
+            fallback_native(chk, detector, su, r, label, role, oracle_fn, meta, base)
             continue
         if any(loc_vars_in(c, loc_names) for c in r.pc):
             res.loc_dependent = True
         s = z3.Solver()
+        s.add(*base)
         s.add(*r.pc)
         if s.check() != z3.sat:
             continue
-        cls = oracle.classify_file(detector, sol.concretize(su, r.choices, None), oracle_fn)
+        cls = oracle.classify_file(detector, sol.concretize(su, r.choices, None), oracle_fn, meta)
         witness = None
         why = None
         if r.outcome == 'panic':
@@ -456,7 +474,7 @@ def run_case(chk, engine, detector, su, label, loc_names, oracle_fn=None, confir
             continue
         # symbolic counterexample -> concrete file -> the real code decides
         conc = concrete_file(su, r.choices, witness)
-        text, det, problems = native_verdict(chk, detector, conc, label, oracle_fn)
+        text, det, problems = native_verdict(chk, detector, conc, label, oracle_fn, conc_meta(meta, witness))
         if problems is None:
             chk.undecide('%s [%s]: counterexample file does not parse back to the executed tree: %s' % (detector, label, text.strip()[:120]))
             continue
@@ -501,14 +519,15 @@ def label_key(label):
     return label.split(' @ ')[0].replace(' ', '')[:60]
 
 
-def fallback_native(chk, detector, su, r, label, role, oracle_fn):
+def fallback_native(chk, detector, su, r, label, role, oracle_fn, meta=None, base=()):
     """DESIGN 4.4: a path the engine cannot encode is still tested on the real code (never an alarm by itself)"""
     try:
-        s = z3.Solver(); s.add(*r.pc)
+        s = z3.Solver(); s.add(*base); s.add(*r.pc)
         if s.check() != z3.sat:
             return
-        conc = concrete_file(su, r.choices, s.model())
-        text, det, problems = native_verdict(chk, detector, conc, label, oracle_fn)
+        mdl = s.model()
+        conc = concrete_file(su, r.choices, mdl)
+        text, det, problems = native_verdict(chk, detector, conc, label, oracle_fn, conc_meta(meta, mdl))
     except Exception:
         return
     if problems:
